@@ -2,6 +2,7 @@ package sym
 
 import (
 	"go/types"
+	"math"
 	"net"
 
 	"golang.org/x/tools/go/ssa"
@@ -74,6 +75,8 @@ func init() {
 	one("math.Floor", mathFloor)
 	one("math.Ceil", mathCeil)
 	one("math.Sqrt", mathSqrt)
+	one("math.Exp", math.Exp)
+	one("math.Log", math.Log)
 	one("math.Log2", mathLog2)
 	one("math.Abs", mathAbs)
 }
